@@ -396,7 +396,7 @@ def strat(draw, tier):
 
 
 PARTS = [
-    Part("publish_faults", exec_case, strategy=strat, examples={"quick": 160, "thorough": 6000}, shards={"quick": 16, "thorough": 16},
+    Part("publish_faults", exec_case, strategy=strat, examples={"quick": 480, "thorough": 6000}, shards={"quick": 16, "thorough": 16},
          budget_s={"quick": 70, "thorough": 1500}, describe="generated file sets and listing orders; every fault point x {failure, crash}; generated fault sequences; refresh after each"),
 ]
 
